@@ -247,9 +247,11 @@ fn main() {
         Cfg { min_pipeline_buffer: 1, batch_threshold: 2, read_buffer_size: 8192, shards: 1 },
         Cfg { min_pipeline_buffer: 1, batch_threshold: 1, read_buffer_size: 8192, shards: 1 },
         Cfg { min_pipeline_buffer: 16, batch_threshold: 3, read_buffer_size: 8192, shards: 2 },
+        // a tiny read buffer: every read fills it completely, frames always span several reads
+        Cfg { min_pipeline_buffer: 60, batch_threshold: 2, read_buffer_size: 5, shards: 1 },
     ];
     if thorough {
-        cfgs.push(Cfg { min_pipeline_buffer: 60, batch_threshold: 2, read_buffer_size: 5, shards: 1 });
+        cfgs.push(Cfg { min_pipeline_buffer: 1, batch_threshold: 2, read_buffer_size: 7, shards: 1 });
         cfgs.push(Cfg { min_pipeline_buffer: 60, batch_threshold: 2, read_buffer_size: 8192, shards: 2 });
         cfgs.push(Cfg { min_pipeline_buffer: 1, batch_threshold: 1, read_buffer_size: 5, shards: 2 });
     }
